@@ -29,6 +29,7 @@ from .common import MachineryError
 LEVEL = "model_checking"
 TLC_WORKERS = 8
 MC_REPLAY_QUICK = 5000
+MC_REPLAY_THOROUGH = 120000
 JAVA_ENV = {"JAVA_TOOL_OPTIONS": "-Xss32m -XX:ParallelGCThreads=6"}   # deep (but finite) recursion of the interpreter on long programs
 
 RAW_BEFORE = ("callsubr", "callgsubr", "blend", "vsindex")
@@ -959,6 +960,21 @@ def gen_tokens_to_prog(toks, rng):
     return p
 
 
+def tlc_retry(chk, module, **kw):
+    """chk.tlc, with TLC's own error lines surfaced and one retry (a JVM that dies under memory
+    pressure is a machinery hiccup, not a verdict)"""
+    last = None
+    for attempt in (1, 2):
+        r = chk.tlc(module, expect_ok=False, **kw)
+        if r.ok:
+            return r
+        lines = [l for l in r.stdout.splitlines() if not l.startswith("<<")]
+        bad = [i for i, l in enumerate(lines) if "rror" in l or "xception" in l]
+        last = "\n".join(lines[i] for j in bad[:6] for i in range(j, min(j + 3, len(lines))))
+        chk.log("TLC run of %s failed (attempt %d, exit %s): %s" % (module, attempt, r.exit, last[:600]))
+    raise MachineryError("TLC failed twice on %s: %s" % (module, (last or "")[:1500]))
+
+
 def judge_all(chk, traces, what):
     """send finalized traces to TLC, account verdicts"""
     if not traces:
@@ -969,7 +985,8 @@ def judge_all(chk, traces, what):
     for base in range(0, len(traces), CH):
         part = traces[base:base + CH]
         slim = [{"progs": t["progs"], "dw": t["dw"], "nw": t["nw"], "nl": t["nl"], "outs": t["outs"]} for t in part]
-        r = chk.tlc("Trace_C12", traces=slim, timeout=1500, env=JAVA_ENV, workers=TLC_WORKERS, label="Trace_C12:" + what)
+        r = tlc_retry(chk, "Trace_C12", traces=slim, timeout=1500, env=JAVA_ENV, workers=TLC_WORKERS,
+                      label="Trace_C12:" + what)
         if r.distinct != 2 * len(part):
             raise MachineryError("Trace_C12 judged %d states for %d traces" % (r.distinct, len(part)))
         if re.search(r'^<< "REJ"', r.stdout, re.M):
@@ -1067,14 +1084,15 @@ def run(chk):
 
     # ---- (M) ------------------------------------------------------------------------
     cfg = "MC_T2Sem_thorough" if thorough else "MC_T2Sem"
-    r = chk.tlc("MC_T2Sem", cfg=cfg, label=cfg, timeout=1500, env=JAVA_ENV, workers=TLC_WORKERS)
+    r = tlc_retry(chk, "MC_T2Sem", cfg=cfg, label=cfg, timeout=1500, env=JAVA_ENV, workers=TLC_WORKERS)
     gens = r.prints.get("GEN", [])
-    if len(gens) != r.distinct:
+    if len(gens) != r.distinct - 1:      # every state but the seed state denotes a program
         raise MachineryError("MC_T2Sem exported %d programs for %d states" % (len(gens), r.distinct))
     chk.log("%s: %d states, %d programs exported, %.1fs" % (cfg, r.distinct, len(gens), r.wall))
     chk.notes["mc_constants"] = open(os.path.join(common.SPECS, cfg + ".cfg")).read().split("INIT")[0].strip()
 
     items = []
+    always = []          # run-structured long programs are replayed in every tier
     built_pool = []
     seen = set()
     for payload in gens:
@@ -1085,22 +1103,26 @@ def run(chk):
             if key in seen:
                 continue
             seen.add(key)
+            if rec["k"] == "run":
+                always.append(len(items))
             items.append((len(items), "cff", enc_prog(p), [], 0, {"kind": "prog", "src": "MC_T2Sem:" + form, "fmt": "cff",
                                                                   "prog": enc_prog(p), "rg": [], "vsi": 0}))
             if rec["k"] == "small":
                 built_pool.append((enc_prog(p), rec["w"] >= 0, rec["w"]))
     n_all_mc = len(items)
-    if not thorough and len(items) > MC_REPLAY_QUICK:
-        # quick tier replays a seeded sample of the exported programs (thorough: all of them)
-        items = [items[i] for i in sorted(rng.sample(range(len(items)), MC_REPLAY_QUICK))]
+    budget = MC_REPLAY_THOROUGH if thorough else MC_REPLAY_QUICK
+    if len(items) > budget:
+        # a seeded sample of the exported programs is replayed (all run-structured ones always)
+        pick = set(always) | set(rng.sample(range(len(items)), budget))
+        items = [items[i] for i in sorted(pick)]
         items = [(i,) + it[1:] for i, it in enumerate(items)]
     chk.notes["mc_programs_exported"] = n_all_mc
     chk.notes["mc_programs_replayed"] = len(items)
     n_mc = len(items)
 
     # ---- grammar-generated random programs ----------------------------------------------
-    n_rand = 40000 if thorough else 2000
-    n_cff2 = 12000 if thorough else 700
+    n_rand = 25000 if thorough else 2000
+    n_cff2 = 8000 if thorough else 700
     rand_built = []
     for i in range(n_rand):
         p = rand_program(rng, "cff")
@@ -1132,7 +1154,7 @@ def run(chk):
 
     # ---- built fonts: subroutines, hint removal, CFF<->CFF2, widths, cffsubr ---------------
     # grammar programs whose width bookkeeping the generator knows
-    n_fonts = 300 if thorough else 30
+    n_fonts = 200 if thorough else 30
     per_font = 50
     pool = list(built_pool)
     rng.shuffle(pool)
